@@ -323,9 +323,10 @@ pub fn unary(kind: &str, a: Value) -> MRes {
         ("dec", Value::Decimal(d)) => Ok(Value::Decimal(d)),
         ("dec", Value::String(s)) => Decimal::from_str(&s).map(Value::Decimal).map_err(|_| MErr::InvalidCast),
 
-        ("datetime", Value::String(s)) => DateTime::parse_from_rfc3339(&s)
-            .map(|d| Value::DateTime(d.with_timezone(&Utc)))
-            .map_err(|_| MErr::InvalidCast),
+        // like int / float / dec of a string: the target type's own text parser (chrono's `FromStr for DateTime<Utc>`, a
+        // documented relaxed RFC 3339 reader) is the primitive; strict RFC 3339 texts are cross-checked against
+        // `parse_from_rfc3339` by the generator's round trip (gen_string renders generated date-times itself)
+        ("datetime", Value::String(s)) => s.parse::<DateTime<Utc>>().map(Value::DateTime).map_err(|_| MErr::InvalidCast),
         ("datetime", Value::Int(i)) => match i64_of(i) {
             None => Err(MErr::AnyError),
             Some(n) => DateTime::<Utc>::from_timestamp(n, 0).map(Value::DateTime).ok_or(MErr::InvalidCast),
